@@ -87,6 +87,16 @@ func (c *ItemsController) ByColor(ctx context.Context, color Color) (string, err
 	return str(r), err
 }
 
+// A method declared with an anonymous receiver and a @Security annotation without properties.
+//
+// @Method(GET)
+// @Route(/ping)
+// @Security(s3)
+func (*ItemsController) Ping() error {
+	_, err := trace.Invoke("ItemsController.Ping")
+	return err
+}
+
 // No @Security here: routes fall back to the configured default security.
 //
 // @Tag(Things)
